@@ -39,6 +39,23 @@ def run(env, tier, seed, broken=None):
     ]
     for v in ['0', '1', '""', '"a"', NIL, TRUE, FALSE, '[]', '{}', '0.0', '2 ** 1024 - 2 ** 1024', '-0', LEN]:
         extra.append('%s (%s) { %s "T"; } %s { %s "F"; }\n%s c = 0;\n%s (%s) { c = c + 1; %s (c > 1) { %s; } %s c; }\n' % (IF, v, PRINT, ELSE, PRINT, VAR, WHILE, v, IF, BREAK, PRINT))
+    # loops whose condition is constantly true (or omitted) and whose only way out sits in a particular arm: then, else,
+    # else-if, a nested if, behind a continue; in every one of: top level, block, function body, enclosing loop; code
+    # follows the loop and must run.  Also literal-only conditions (a "constant folder" must agree with evaluation).
+    exits = ['%s (c > 2) { %s; }' % (IF, BREAK), '%s (c <= 2) { %s "in"; } %s { %s; }' % (IF, PRINT, ELSE, BREAK),
+             '%s (c == 1) { %s "one"; } %s %s (c == 2) { %s "two"; } %s { %s; }' % (IF, PRINT, ELSE, IF, PRINT, ELSE, BREAK),
+             '%s (c > 0) { %s (c > 2) { %s; } }' % (IF, IF, BREAK), '%s (c < 3) { %s; } %s;' % (IF, CONTINUE, BREAK),
+             '{ { %s (c <= 2) { } %s { %s; } } }' % (IF, ELSE, BREAK)]
+    heads = ['%s (%s)' % (WHILE, TRUE), '%s (1)' % WHILE, '%s ("x")' % WHILE, '%s (;;)' % FOR, '%s (; %s; )' % (FOR, TRUE), '%s (!%s)' % (WHILE, FALSE), '%s (1 < 2)' % WHILE]
+    for h in heads:
+        for x in exits:
+            loop = '%s c = 0;\n%s { c = c + 1; %s %s c; }\n%s "after loop";\n' % (VAR, h, x, PRINT, PRINT)
+            extra += [loop + '%s c;\n' % PRINT, '{\n' + loop + '}\n%s "end";\n' % PRINT,
+                      '%s f() {\n%s%s "f done"; %s c;\n}\n%s f();\n%s f();\n' % (FUN, loop, PRINT, RETURN, PRINT, PRINT),
+                      '%s (%s k = 0; k < 2; k = k + 1) {\n%s}\n%s "end";\n' % (FOR, VAR, loop, PRINT)]
+    for cnd in ['1 == "1"', '"10" != "10.0"', '"a" == "a"', '0 == "0"', '"" == 0', '%s == 0' % NIL, '1 == 1.0', '"1" == "১"', '2 > 1 == %s' % TRUE, '!0', '!"0"', '-0', '0 * -1 == 0', '"x" < "y"', '1 < "2"', '[] == []', '[1] == [1]']:
+        extra.append('%s %s;\n%s (%s) { %s "then"; } %s { %s "else"; }\n%s n = 0;\n%s (%s) { n = n + 1; %s (n > 2) { %s; } }\n%s n;\n%s (; %s; ) { %s "for"; %s; }\n' % (
+            PRINT, cnd, IF, cnd, PRINT, ELSE, PRINT, VAR, WHILE, cnd, IF, BREAK, PRINT, FOR, cnd, PRINT, BREAK))
     for e in extra:
         cases.append({'id': 's%d' % n, 'src': e}); n += 1
     for i in range(1500 if tier == 'quick' else 40000):
